@@ -3,7 +3,7 @@ from . import _hub
 
 CONFIG = dict(
     modules=["SigModel.Props.C19", "SigModel.Props.C07"],
-    theorems=["SigModel.Hub.reachable_inv", "SigModel.Hub.C19_only_internal", "SigModel.Hub.C19_own_backend_only", "SigModel.Hub.C19_exists_through_parent", "SigModel.Hub.C19_table_sound", "SigModel.Hub.C19_member_not_listener", "SigModel.Hub.C19_removed_is_gone", "SigModel.Hub.C19_gone_iff", "SigModel.Hub.C19_removed_is_reported", "SigModel.Hub.C05_routing", "SigModel.Hub.C07_no_residue"],
+    theorems=["SigModel.Hub.reachable_inv", "SigModel.Hub.C19_only_internal", "SigModel.Hub.C19_own_backend_only", "SigModel.Hub.C19_exists_through_parent", "SigModel.Hub.C19_table_sound", "SigModel.Hub.C19_member_not_listener", "SigModel.Hub.C19_removed_is_gone", "SigModel.Hub.C19_facts", "SigModel.Hub.C19_gone_iff", "SigModel.Hub.C19_removed_is_reported", "SigModel.Hub.C05_routing", "SigModel.Hub.C07_no_residue"],
     generated=["Hub"],
     harness=_hub.HARNESS,
     stats=_hub.stats,
